@@ -58,6 +58,7 @@ partial def loop (handle : List String → String) : IO Unit := do
     if line.isEmpty then return ()
     let toks := (line.trimAsciiEnd.copy.splitOn " ").filter (· ≠ "")
     stdout.putStrLn (handle toks)
+    stdout.flush
     go
   go
   stdout.flush
